@@ -55,7 +55,10 @@ TwinClauses(e) ==
         C16_future |-> e.tw16 # 0,
         C11_obs    |-> e.tw11 # 0 /\ CleanAdds(Trace[e.tw11].parent),
         C11_state  |-> e.tw11s # 0 /\ CleanAdds(e.tw11s),
-        C15_same   |-> e.tw15 # 0 ]
+        C15_same   |-> e.tw15 # 0,
+        \* C18: for children supplied in a schema-valid order the unchecked element's output is byte-identical
+        C18_same   |-> /\ e.tw18 # 0 /\ e.op = "tostring" /\ ~e.pre.chk
+                       /\ LET f == Trace[e.tw18] IN f.res.ok /\ f.post.ordw = f.post.insw /\ f.post.insw = e.post.insw ]
   IN [ante |-> ante, holds |-> [
    \* a failed call changes nothing: what follows it behaves as if it had never been made
    C10_future |-> ante.C10_future => SameObs(Obs(e), Obs(Trace[e.tw10])),
@@ -65,11 +68,12 @@ TwinClauses(e) ==
    C11_obs    |-> ante.C11_obs => SameObs(Obs(e), Obs(Trace[e.tw11])),
    C11_state  |-> ante.C11_state => e.post.ordw = Trace[e.tw11s].post.ordw,
    \* shortcut == explicit call
-   C15_same   |-> ante.C15_same => SameObs(Obs(e), Obs(Trace[e.tw15])) ]]
+   C15_same   |-> ante.C15_same => SameObs(Obs(e), Obs(Trace[e.tw15])),
+   C18_same   |-> ante.C18_same => (e.res.ok /\ e.text = Trace[e.tw18].text) ]]
 
 AllClauses == {"C01_word", "C01_text", "C02_accept", "C02_final", "C06_add", "C06_remove", "C06_replace", "C06_out",
                "C07_ext", "C10_frame", "C10_future", "C11_obs", "C11_state", "C12_reject", "C12_unique", "C15_same",
-               "C15_noop", "C16_pure", "C16_future", "C18_free", "C19_class", "C19_quiet", "cascade"}
+               "C15_noop", "C16_pure", "C16_future", "C18_free", "C18_same", "C19_class", "C19_quiet", "cascade"}
 
 VARIABLES i, cnt     \* cnt[n] = number of steps so far that exercised clause n (non-vacuity accounting)
 
